@@ -59,3 +59,14 @@ Definition acase := (bool * sp_req * option ms_req)%type.
 Definition adapter_bad (cs : list (nat * acase)) : list nat :=
   flat_map (fun ic => let '(i, (ini, r, obs)) := ic in
                       if opt_eqb ms_eqb (adapt_in ini r) obs then [] else [i]) cs.
+
+(* ---- the bridge to the streamer's flow-control accounting (Streamer.v) ----
+   The reader goroutine deletes from [pending] the ids of Ack, and those of Delay when the request
+   is a nack; a positive deadline leaves the accounting alone. *)
+Definition reader_removes (m : ms_req) : list N :=
+  ms_ack m ++ (if is_nack m then ms_delay m else []).
+
+(* what the client gives up with a request: what it acknowledges, and what it nacks (deadline
+   <= 0); a message whose deadline it extends it still holds *)
+Definition given_up (acks dl : list N) (secs : list Z) : list N :=
+  acks ++ map fst (filter (fun p => snd p <=? 0) (combine dl secs)).
